@@ -242,6 +242,17 @@ fn tails16() -> Vec<Vec<u16>> {
         vec![0xDC00, 0x41],
         vec![0xE4, 0x41, 0x3042, 0x42],
         vec![0x3042, 0x3042, 0x3042, 0x3042, 0x3042],
+        // the ends of the surrogate ranges, paired and unpaired (the `'tail` of convert_utf16_to_utf8_partial tests
+        // `second` against 0xDC00..=0xDFFF when exactly three bytes are free; model-mutation audit SS09 / ME13 / ME14 / ME16)
+        vec![0xDBFF, 0xDFFF],
+        vec![0xD800, 0xDC00],
+        vec![0xD800, 0xDFFF, 0x41],
+        vec![0xDBFF, 0xDC00, 0x41],
+        vec![0xDBFF],
+        vec![0xDFFF],
+        vec![0xDBFF, 0xE000],
+        vec![0xD800, 0xDBFF],
+        vec![0xD7FF, 0xDC00],
     ]
 }
 
